@@ -63,6 +63,9 @@ pub struct FaultSpec {
     /// fail the n-th (0-based) operation of that kind after arming
     pub nth: u64,
     pub code: i32,
+    /// how many consecutive operations of that kind fail from the n-th on (1 = a single fault;
+    /// large = the condition persists, e.g. a lock held by somebody else for longer than any retry)
+    pub repeat: u64,
 }
 
 #[derive(Default)]
@@ -76,6 +79,13 @@ pub struct State {
 static STATE: OnceLock<Mutex<State>> = OnceLock::new();
 static RECORDING: AtomicBool = AtomicBool::new(false);
 static REGISTERED: AtomicBool = AtomicBool::new(false);
+/// files opened while this is set get I/O methods without shared-memory support, as on a file
+/// system where WAL cannot be used: SQLite then stays in rollback-journal mode
+static NO_SHM: AtomicBool = AtomicBool::new(false);
+
+pub fn set_no_shm(on: bool) {
+    NO_SHM.store(on, Ordering::SeqCst);
+}
 
 fn state() -> &'static Mutex<State> {
     STATE.get_or_init(|| Mutex::new(State::default()))
@@ -139,9 +149,11 @@ fn check_fault(kind: FaultKind, what: &str) -> Option<i32> {
     let n = s.seen[idx];
     s.seen[idx] += 1;
     if let Some(f) = s.fault {
-        if f.kind == kind && f.nth == n && s.fired.is_none() {
-            let at = s.log.len();
-            s.fired = Some((at, format!("{kind:?} #{n} on {what} -> code {}", f.code)));
+        if f.kind == kind && n >= f.nth && n < f.nth.saturating_add(f.repeat.max(1)) {
+            if s.fired.is_none() {
+                let at = s.log.len();
+                s.fired = Some((at, format!("{kind:?} #{n} on {what} -> code {}{}", f.code, if f.repeat > 1 { format!(" (and the next {} as well)", f.repeat - 1) } else { String::new() })));
+            }
             return Some(f.code);
         }
     }
@@ -300,6 +312,28 @@ static IO_METHODS: ffi::sqlite3_io_methods = ffi::sqlite3_io_methods {
     xUnfetch: None,
 };
 
+static IO_METHODS_V1: ffi::sqlite3_io_methods = ffi::sqlite3_io_methods {
+    iVersion: 1,
+    xClose: Some(x_close),
+    xRead: Some(x_read),
+    xWrite: Some(x_write),
+    xTruncate: Some(x_truncate),
+    xSync: Some(x_sync),
+    xFileSize: Some(x_file_size),
+    xLock: Some(x_lock),
+    xUnlock: Some(x_unlock),
+    xCheckReservedLock: Some(x_check_reserved),
+    xFileControl: Some(x_file_control),
+    xSectorSize: Some(x_sector_size),
+    xDeviceCharacteristics: Some(x_dev_char),
+    xShmMap: None,
+    xShmLock: None,
+    xShmBarrier: None,
+    xShmUnmap: None,
+    xFetch: None,
+    xUnfetch: None,
+};
+
 unsafe extern "C" fn v_open(v: *mut ffi::sqlite3_vfs, name: *const c_char, f: *mut ffi::sqlite3_file, flags: c_int, out: *mut c_int) -> c_int {
     let sf = f as *mut ShimFile;
     (*sf).base.pMethods = std::ptr::null();
@@ -312,7 +346,7 @@ unsafe extern "C" fn v_open(v: *mut ffi::sqlite3_vfs, name: *const c_char, f: *m
     let rc = (*rv).xOpen.unwrap()(rv, name, real_file(f), flags, out);
     if !(*real_file(f)).pMethods.is_null() {
         // SQLite calls xClose whenever pMethods is set, even if xOpen failed
-        (*sf).base.pMethods = &IO_METHODS;
+        (*sf).base.pMethods = if NO_SHM.load(Ordering::SeqCst) { &IO_METHODS_V1 } else { &IO_METHODS };
         (*sf).name = Box::into_raw(Box::new(n.clone()));
     }
     if rc == 0 {
@@ -367,6 +401,15 @@ unsafe extern "C" fn v_randomness(v: *mut ffi::sqlite3_vfs, n: c_int, out: *mut 
 }
 
 unsafe extern "C" fn v_sleep(v: *mut ffi::sqlite3_vfs, us: c_int) -> c_int {
+    // while a persistent fault is armed the busy handler's waiting is virtual: the lock-wait budget
+    // (seconds) elapses without the check having to sit through it
+    if RECORDING.load(Ordering::SeqCst) {
+        if let Ok(s) = state().lock() {
+            if s.fault.map(|f| f.repeat > 1).unwrap_or(false) {
+                return us;
+            }
+        }
+    }
     let rv = real_vfs(v);
     (*rv).xSleep.unwrap()(rv, us)
 }
